@@ -70,6 +70,7 @@ MCCells == <<
     Ce("bool", 0, 1000000, 0, 0), Ce("bool", 0, 0, 0, 0),
     Ce("num", 0, 1000000, 0, 1), Ce("num", 0, 0, 0, 1), Ce("num", 0, 1500000, 0, 0), Ce("num", 0, 1500002, 0, 0),
     Ce("num", 0, -1500000, 0, 0),
+    Ce("num", 1, 0, 0, 0), Ce("num", 2, 0, 0, 0), Ce("num", 3, 0, 0, 0),     \* +INF, -INF, NaN (content code s)
     Ce("qty", 1, 1500000, 0, 0), Ce("qty", 1, 1500002, 0, 0), Ce("qty", 2, 1500000, 0, 0),
     Ce("qty", 0, 1500000, 0, 0), Ce("qty", 1, 1000000, 0, 1),
     Ce("str", 0, 0, 0, 0), Ce("str", 1, 0, 0, 0), Ce("str", 2, 0, 0, 0),
@@ -81,13 +82,14 @@ MCCells == <<
     Ce("dt", 1, 0, 0, 0), Ce("dt", 2, 0, 0, 0), Ce("dt", 3, 0, 0, 0),
     Ce("dt", 4, 0, 0, 0), Ce("dt", 5, 0, 0, 0),      \* the instants of 1 and 3 in other zones: other cell contents
     Ce("coord", 0, 1500000, 2500000, 0), Ce("coord", 0, 1500002, 2500000, 0), Ce("coord", 0, 1500000, 2500002, 0),
-    Ce("list", 1, 0, 0, 0), Ce("list", 2, 0, 0, 0), Ce("dict", 1, 0, 0, 0) >>
+    Ce("list", 1, 0, 0, 0), Ce("list", 2, 0, 0, 0), Ce("dict", 1, 0, 0, 0),
+    Ce("list", 3, 0, 0, 0), Ce("list", 4, 0, 0, 0) >>     \* lists holding quantities of different units
 
-MCNonGrids == <<MCCells[1], MCCells[2], MCCells[7], MCCells[18], MCCells[40], MCCells[42]>>
+MCNonGrids == <<MCCells[1], MCCells[2], MCCells[7], MCCells[21], MCCells[43], MCCells[45]>>
 
 G1x1(x) == [meta |-> {}, cols |-> <<1>>, cm |-> <<{}>>, rows |-> << <<MCCells[x]>> >>]
 \* a 2 x 2 grid with metadata on the grid and on one column; background cells of assorted kinds
-Bg == << <<MCCells[18], MCCells[9]>>, <<MCCells[23], MCCells[2]>> >>
+Bg == << <<MCCells[21], MCCells[9]>>, <<MCCells[26], MCCells[2]>> >>
 G2x2 == [meta |-> {1, 2}, cols |-> <<1, 2>>, cm |-> <<{3, 4}, {}>>, rows |-> Bg]
 GEmpty == [meta |-> {1}, cols |-> <<1>>, cm |-> <<{}>>, rows |-> <<>>]
 \* the same 2 x 2 grid with every cell of the domain placed at a focus position
